@@ -25,22 +25,22 @@ type checkDef struct {
 }
 
 var checks = map[string]checkDef{
-	"C01": {pkg: "verif/mc/checks/c01", shapes: []string{"mini", "flat24", "person", "document", "repetition", "readme", "obool", "flat3", "samename", "reqdeep", "nest3"}},
-	"C02": {pkg: "verif/mc/checks/c02", shapes: []string{"mini", "flat24", "person", "document", "repetition", "readme", "obool", "flat3", "samename", "reqdeep", "nest3"}},
-	"C03": {pkg: "verif/mc/checks/c03", shapes: []string{"mini", "person", "document", "repetition", "readme", "flat3", "samename", "reqdeep", "nest3"}},
+	"C01": {pkg: "verif/mc/checks/c01", shapes: []string{"mini", "flat24", "person", "document", "repetition", "readme", "obool", "flat3", "samename", "reqdeep", "nest3", "oddnames", "wide70", "deep5", "samedeep", "rbool", "one", "oneopt", "onerep"}},
+	"C02": {pkg: "verif/mc/checks/c02", shapes: []string{"mini", "flat24", "person", "document", "repetition", "readme", "obool", "flat3", "samename", "reqdeep", "nest3", "oddnames", "wide70", "deep5", "samedeep", "rbool", "one", "oneopt", "onerep"}},
+	"C03": {pkg: "verif/mc/checks/c03", shapes: []string{"mini", "person", "document", "repetition", "readme", "flat3", "samename", "reqdeep", "nest3", "oddnames", "wide70", "deep5", "samedeep"}},
 	"C04": {pkg: "verif/mc/checks/c04", shapes: []string{"mini", "person", "document", "flat3", "obool"}},
 	"C05": {pkg: "verif/mc/checks/c05"},
-	"C06": {pkg: "verif/mc/checks/c06", shapes: []string{"mini", "flat3", "person", "one", "oneopt", "onerep"}},
+	"C06": {pkg: "verif/mc/checks/c06", shapes: []string{"mini", "flat3", "person", "one", "oneopt", "onerep", "rbool"}},
 	"C07": {pkg: "verif/mc/checks/c07"},
-	"C08": {pkg: "verif/mc/checks/c08", shapes: []string{"mini", "person", "flat24", "document", "reqdeep"}},
+	"C08": {pkg: "verif/mc/checks/c08", shapes: []string{"mini", "person", "flat24", "document", "reqdeep", "flat3", "tailstr"}},
 	"C09": {pkg: "verif/mc/checks/c09", shapes: []string{"mini", "person"}},
-	"C10": {pkg: "verif/mc/checks/c10", shapes: []string{"mini", "person", "flat24", "document"}},
-	"C11": {pkg: "verif/mc/checks/c11", shapes: []string{"mini", "person", "flat24", "flat3"}},
+	"C10": {pkg: "verif/mc/checks/c10", shapes: []string{"mini", "person", "flat24", "document", "flat3", "tailstr"}},
+	"C11": {pkg: "verif/mc/checks/c11", shapes: []string{"mini", "person", "flat24", "flat3", "tailstr"}},
 	"C12": {pkg: "verif/mc/checks/c12", shapes: []string{"flat24", "person", "document", "nest16"}},
 	"C13": {pkg: "verif/mc/checks/c13", shapes: []string{"mini", "flat3", "flat24"}, modfile: "go.sched.mod"},
 	"C14": {pkg: "verif/mc/checks/c14"},
 	"C15": {pkg: "verif/mc/checks/c15"},
-	"C16": {pkg: "verif/mc/checks/c16", shapes: []string{"mini", "person", "document", "flat3"}},
+	"C16": {pkg: "verif/mc/checks/c16", shapes: []string{"mini", "person", "document", "flat3", "samedeep"}},
 	"C17": {pkg: "verif/mc/checks/c17"},
 	"C18": {pkg: "verif/mc/checks/c18", shapes: []string{"mini", "person", "document", "flat3"}},
 }
